@@ -208,6 +208,117 @@ async def victim(chain, seed, uid, lk, ck, direction):
             conn.close()
 
 
+async def segmented_upstream_replies(out, args):
+    """the handshake reply of an upstream proxy (http, socks5 with an IPv4 / a domain-name bound address) arrives in two TCP segments,
+    cut at every offset, and the origin behind it speaks first: what the client then reads must be exactly the origin's bytes - no
+    left-over of the upstream's reply in front, nothing missing - and its own bytes must reach the origin unchanged"""
+    import struct
+    from .lib import Proxy, TcpOrigin, base_cfg, free_port, http_connect, open_conn, socks5_connect, workdir
+    REPLIES = {"h": b"HTTP/1.1 200 Connection established\r\nVia: 1.1 fake\r\n\r\n", "s": b"\x05\x00\x00\x01\x7f\x00\x00\x09\x1f\x90",
+               "d": b"\x05\x00\x00\x03\x09localhost\x1f\x90"}
+    got_up = {}
+
+    async def tail(r, w, kind, port):
+        reply, cut = REPLIES[kind], port % 100
+        banner = keystream(args.seed, port, "s2c", 64)
+        if 0 < cut < len(reply):
+            w.write(reply[:cut])
+            await w.drain()
+            await asyncio.sleep(0.04)      # the first part is consumed before the second arrives
+            w.write(reply[cut:] + banner)
+        else:
+            w.write(reply + banner)
+        await w.drain()
+        up = b""
+        try:
+            while True:
+                b = await r.read(65536)
+                if not b:
+                    break
+                up += b
+                w.write(b)
+                await w.drain()
+        except Exception:
+            pass
+        got_up[port] = up
+        w.close()
+
+    async def fake_http(r, w, o, info):
+        head = await r.readuntil(b"\r\n\r\n")
+        await tail(r, w, "h", int(head.split(b" ")[1].rsplit(b":", 1)[1]))
+
+    async def fake_socks(r, w, o, info):
+        g = await r.readexactly(2)
+        await r.readexactly(g[1])
+        w.write(b"\x05\x00")
+        await w.drain()
+        h = await r.readexactly(4)
+        alen = {1: 4, 4: 16}.get(h[3]) or (await r.readexactly(1))[0]
+        rest = await r.readexactly(alen + 2)
+        port = struct.unpack(">H", rest[-2:])[0]
+        await tail(r, w, "s" if port < 3200 else "d", port)
+    hup = await TcpOrigin(fake_http, host="127.0.0.1").start()
+    sup = await TcpOrigin(fake_socks, host="127.0.0.1").start()
+    wd = workdir("c01-seg")
+    try:
+        for io_name, io in (("splice", {"bufferSize": 65536, "useSplice": True}), ("buffered", {"bufferSize": 65536, "useSplice": False})):
+            P = {k: free_port() for k in ("http", "socks", "api")}
+            U = Proxy(args.bin, base_cfg([{"name": "http", "bind": "127.0.0.1:%d" % P["http"]}, {"name": "socks", "bind": "127.0.0.1:%d" % P["socks"]}],
+                                         [{"name": "hup", "type": "http", "server": "127.0.0.1", "port": hup.port}, {"name": "sup", "type": "socks", "server": "127.0.0.1", "port": sup.port}],
+                                         [{"filter": "request.target.port < 3100", "target": "hup"}, {"target": "sup"}], metrics_port=P["api"], io=io), "S-" + io_name, wd)
+            try:
+                await U.start()
+
+                async def one(lk, kind, cut):
+                    # ports: 30xx http upstream, 31xx socks5 upstream (IPv4 bound address), 32xx socks5 upstream (domain bound address); xx = cut
+                    port = {"h": 3000, "s": 3100, "d": 3200}[kind] + cut
+                    out.case()
+                    who = "%s via fake %s upstream io=%s" % (lk, {"h": "http", "s": "socks5", "d": "socks5(domain)"}[kind], io_name)
+                    c = await open_conn("127.0.0.1", P[lk])
+                    try:
+                        if lk == "http":
+                            st, _ = await http_connect(c, "127.0.0.1", port)
+                            ok = st == 200
+                        else:
+                            rep, _, _ = await socks5_connect(c, "127.0.0.1", port)
+                            ok = rep == 0
+                        if not ok:
+                            out.violation("tunnel refused although the upstream granted it (reply in two segments): %s" % who, {"cut": cut, "reply_len": len(REPLIES[kind])})
+                            return
+                        upload = keystream(args.seed, port, "c2s", 3000)
+                        c.write(upload)
+                        await c.drain()
+                        want = keystream(args.seed, port, "s2c", 64) + upload
+                        try:
+                            got = await c.read_exact(len(want), timeout=20)
+                        except Exception:
+                            got = bytes(getattr(c, "buf", b""))
+                        if got != want:
+                            out.violation("s2c stream %s: %s" % (classify_mismatch(got, want)["class"], who), {"upstream_reply_cut_at": cut, "reply_len": len(REPLIES[kind]), "head_hex": got[:24].hex()})
+                        c.eof()
+                        for _ in range(200):
+                            if port in got_up:
+                                break
+                            await asyncio.sleep(0.05)
+                        if got_up.get(port) != upload and port in got_up:
+                            out.violation("c2s stream %s: %s" % (classify_mismatch(got_up[port], upload)["class"], who), {"upstream_reply_cut_at": cut})
+                        got_up.pop(port, None)
+                        out.nontrivial((lk, kind, io_name, "segmented-upstream-reply", cut))
+                    finally:
+                        c.close()
+                for lk in ("http", "socks"):
+                    jobs = [one(lk, kind, cut) for kind in ("h", "s", "d") for cut in range(0, len(REPLIES[kind]))]
+                    for i in range(0, len(jobs), 16):
+                        await asyncio.gather(*jobs[i:i + 16])
+                if not U.alive():
+                    out.violation("proxy process died", {"proxy": "S-" + io_name})
+            finally:
+                U.kill()
+    finally:
+        await hup.stop()
+        await sup.stop()
+
+
 async def main(args):
     out = Out("C01", "c01", "every listener kind x connector kind x io mode (splice on/off, several bufferSize) with drawn shapes (payload sizes 0..multi-MB per direction, who speaks first, early data glued to the handshake, write sizes, pauses, slow readers, target as IPv4/domain/IPv6, segmented handshakes), 1..32 tunnels concurrently; both byte streams compared with position-keyed keystreams. distinct = distinct (listener, connector, io mode, shape class) with payload in both directions")
     rng = random.Random(args.seed)
@@ -319,6 +430,7 @@ async def main(args):
             if bank:
                 await bank.stop()
             chain.cleanup(args.keep)
+    await segmented_upstream_replies(out, args)
     out.finish()
 
 
